@@ -270,6 +270,11 @@ def run_case(case, ctx):
             raise
         st.count("non_p1_rejected")
     st.seen("class", "%s/%s/%s" % (case["cell"], mode, case["where"]))
+    tel = [a.atom_type_elements[int(t)] for t in sorted(set(int(x) for x in a.atom_types))]
+    if len(set(tel)) < len(tel):
+        st.count("structures_with_two_atom_types_of_one_element")
+        if sum(len(getattr(a, "%s_types" % k)) for k in atomsgen.KNAMES):
+            st.count("structures_with_two_atom_types_of_one_element_and_terms")
     nx = sum(1 for k in ("atom", "bond", "angle", "dihedral") if len(getattr(a, "extra_%s_labels" % k)) and (k == "atom" or len(getattr(a, "%s_types" % k))))
     for k in ("atom", "bond", "angle", "dihedral"):
         if len(getattr(a, "extra_%s_labels" % k)) and (k == "atom" or len(getattr(a, "%s_types" % k))):
@@ -294,6 +299,8 @@ def requirements(stats, tier):
         need.append("extra columns not observed on all four loops")
     if stats.get("impropers_with_torsion_columns") < 3:
         need.append("impropers together with extra torsion columns observed fewer than 3 times")
+    if stats.get("structures_with_two_atom_types_of_one_element_and_terms") < 10:
+        need.append("structures in which two atom types share an element (and terms exist): %d" % stats.get("structures_with_two_atom_types_of_one_element_and_terms"))
     if stats.get("non_p1_rejected") < 50 or stats.get("su_variants") < 50:
         need.append("reading variants not exercised")
     if stats.get("ase_agreed") < 0.8 * stats.get("files_written"):
